@@ -233,23 +233,17 @@ def roundtrip(conn, specs, objs, plan):
 
 def hammer(conn, obj, tname, is_array, how, raw_body, idxs, m):
     """up to m locked read-modify-write increments (stops early when the
-    budget sent with 'go' is used up and reports how many were made);
+    budget sent by the parent is used up and reports how many were made);
     ``how`` = the way the object's lock is held, ``raw_body`` = touch the
-    underlying object (needed when the lock is not recursive)."""
+    underlying object (needed when the lock is not recursive).  Before that,
+    if the parent asks for it, one single locked increment announced by
+    'probing' (the parent holds the lock at that moment)."""
     try:
-        _, shape, fields = TYPES[tname]
+        shape = TYPES[tname][1]
         target = obj.get_obj() if raw_body else obj
         lock = obj.get_lock()
-        conn.send(('ready', None))
-        if not conn.poll(120):
-            return
-        deadline = time.monotonic() + conn.recv()
-        nidx = len(idxs)
-        made = 0
-        for k in range(m):
-            if not k & 31 and time.monotonic() > deadline:
-                break
-            i = idxs[k % nidx]
+
+        def bump(i):
             if how == 0:
                 lock.acquire()
             elif how == 1:
@@ -277,6 +271,25 @@ def hammer(conn, obj, tname, is_array, how, raw_body, idxs, m):
                     obj.__exit__(None, None, None)
                 else:
                     lock.__exit__(None, None, None)
+
+        conn.send(('ready', None))
+        if not conn.poll(120):
+            return
+        msg = conn.recv()
+        if msg == 'probe':
+            conn.send(('probing', None))
+            bump(idxs[0])
+            conn.send(('probed', None))
+            if not conn.poll(300):
+                return
+            msg = conn.recv()
+        deadline = time.monotonic() + msg
+        nidx = len(idxs)
+        made = 0
+        for k in range(m):
+            if not k & 31 and time.monotonic() > deadline:
+                break
+            bump(idxs[k % nidx])
             made += 1
         conn.send(('done', made))
     except BaseException as exc:
